@@ -219,6 +219,12 @@ def standard_parsing_functions(Block: Any, Tx: Any) -> list[Any]:
     def stream_int_6(f: IO[bytes], v: int) -> None:
         f.write(struct.pack("<Q", v)[:6])
 
+    def parse_optional_bool(f: IO[bytes]) -> bool | None:
+        b = f.read(1)
+        if len(b) == 0:
+            return None
+        return bool(struct.unpack("B", b)[0])
+
     more_parsing = [
         ("A", (PeerAddress.parse, lambda f, peer_addr: peer_addr.stream(f))),
         ("v", (InvItem.parse, lambda f, inv_item: inv_item.stream(f))),
@@ -236,7 +242,7 @@ def standard_parsing_functions(Block: Any, Tx: Any) -> list[Any]:
         (
             "O",
             (
-                lambda f: True if f.read(1) else False,
+                parse_optional_bool,
                 lambda f, v: f.write(b"" if v is None else struct.pack("B", v)),
             ),
         ),
